@@ -15,7 +15,7 @@ RULE = ("case = (bits b, length, input dtype, values, window w, positions, order
         "(b, length around multiples of 64/b, w) + seeded random; distinct = hash of the case; non-trivial = length > 64/b (more than one register) or w > 1")
 ASSUMPTIONS = ["values fit in b bits and are non-negative; window sizes satisfy w*b <= 64 and w <= length"]
 ANCHORS = ["bitarray.py::BitArray.pack", "bitarray.py::BitArray.unpack", "bitarray.py::BitArray.__getitem__", "bitarray.py::BitArray.sliding_window"]
-BITS = [1, 2, 4, 8, 16, 32]
+BITS = [1, 2, 4, 8, 16, 32, 64]
 DTS = ["int8", "int16", "int32", "int64", "uint8", "uint16", "uint32", "uint64", ">i8", ">u8", ">i4", ">u2"]      # also non-native byte order
 FLOOR_TAGS = ["b:%d" % b for b in BITS] + ["len:multiple", "len:multiple+1", "len:multiple-1", "len:<register", "w:1", "w:full", "w:mid", "style:rand", "style:ones", "style:alt",
                                            "straddle", "twin", "wtype:numpy", "w*b:54..63", "huge"]
@@ -174,7 +174,7 @@ def run(case):
         done += ch
         if twin is not None:
             tu = attempt(lambda: np.asarray(twin.unpack()).tolist())
-            tw = attempt(lambda: twin.sliding_window(min(2, len(tvals))))
+            tw = attempt(lambda: twin.sliding_window(min(2, len(tvals), 64 // tb)))       # (w * b <= 64)
             if not tu.ok or tu.value != tvals:
                 return violated("%s: a second BitArray (b=%d) used in between unpacks to %s, expected %s" % (desc, tb, repr(tu) if not tu.ok else short(tu.value, 100), short(tvals, 100)), tags + ["twin-broken"])
         msg = obs[ch]()
@@ -261,6 +261,31 @@ def sweep(tier):
 def huge_cases():
     for b, w, n in ((8, 3, 2 ** 22 + 100), (2, 5, 2 ** 22 + 37), (16, 4, 2 ** 22 + 3), (8, 8, 2 ** 23 + 9), (8, 5, 2 ** 24 + 40), (32, 2, 9000000), (1, 33, 13000001), (4, 9, 2 ** 24 + 2 ** 22 + 5)):
         yield {"huge": True, "b": b, "w": w, "n": n}
+
+
+def const_case(rng, tier, s, form):
+    """a number taken from the library source (+-1) as the number of packed values / of 64-bit registers / of positions in one list look-up"""
+    b = rng.choice(BITS)
+    per = 64 // b
+    if form in ("rows", "nonempty", "cells"):
+        n = s if form != "cells" else s * per + rng.choice([-1, 0, 1, per // 2])
+        if n < 1:
+            return None
+        if n > 60000:
+            if n > 2 ** 25 or b == 64:
+                return None
+            return {"huge": True, "b": b, "w": rng.randint(1, per), "n": n}
+        return gen_case(rng, b, n)
+    L = rng.choice([s + 3, 2 * s + 1, s + per]) if form == "emptyrun" else rng.choice([7, s, s + 1, 3 * per + 2])
+    if L > 60000 or s > 60000:
+        return None
+    c = gen_case(rng, b, L)
+    if form == "emptyrun":
+        a = rng.randrange(L - s + 1)
+        c["pos"] = list(range(a, a + s))        # a run of exactly s consecutive positions
+    else:
+        c["pos"] = [rng.randrange(L) for _ in range(s)]      # one list look-up with exactly s positions
+    return c
 
 
 def random_case(rng, tier):
